@@ -311,7 +311,10 @@ def xrandbetween(bottom, top):
     if dx < 0:
         return Error.errors['#NUM!']
 
-    return bottom + dx * np.random.rand()
+    bottom, top = math.ceil(bottom), math.floor(top)
+    if top < bottom:
+        return Error.errors['#NUM!']
+    return bottom + int((top - bottom + 1) * np.random.rand())
 
 
 FUNCTIONS['RANDBETWEEN'] = wrap_ufunc(
